@@ -4,7 +4,7 @@ Produces query *text*; features of every generated query are counted in ``featur
 feature class makes a run inconclusive instead of silently held."""
 from liquer.parser import encode_token
 
-TEXTS = ["\ufeffbom", "a", "B", "x y", "a-b", "a/b", "~", "~~x", "%41", "50%", "a+b", "é€", "http://x.y/z?q=1", "https://u", "file://f",
+TEXTS = ["\ufeffbom", "é", "日本", "ß9", "a", "B", "x y", "a-b", "a/b", "~", "~~x", "%41", "50%", "a+b", "é€", "http://x.y/z?q=1", "https://u", "file://f",
          "://", "-1", "--", "", "~E", "~X~", "a.b", "_", "1e3", "None", "true", "t", "0"]
 NONCANON = ["%41", "a%42c", "~/", "x~/y", "~1", "~9z", "%7E", "%2D", "A+B", "%20", "%c3%a9"]
 NAMES = ["v1", "v2", "tag"]
@@ -117,7 +117,7 @@ class QGen:
         if first:
             c = r.choice(["one", "lit", "lit", "num", "num", "flt", "mk", "mk", "firstcat", "one"])
         else:
-            pool = ["add", "add", "mulf", "flagged", "pair", "none_default", "unann", "cat", "cat", "ident", "withctx",
+            pool = ["add", "add", "mulf", "flagged", "pair", "none_default", "unann", "scale", "cat", "cat", "ident", "withctx",
                     "sub", "subin", "filename", "ctxvar", "getvar", "tag", "let", "let", "flag", "state_variable", "ns", "attr_up", "attr_low", "attr_camel", "attr_false",
                     "lit", "num", "firstcat", "optint", "optfb"]
             if self.allow_volatile:
@@ -142,7 +142,7 @@ class QGen:
             a = opt([self.float_arg(D, P)])
             self._numeric_prefix = True
         elif c == "mk":
-            a = opt([r.choice(["list", "dict", "udict", "nested", "df", "bytes", "text", "none", "float", "inf", "nan", "tuple", "tlist", "pairs", "set", "matrix", "lod"]), str(r.choice([0, 1, 2, 3]))])
+            a = opt([r.choice(["list", "dict", "idict", "bigbytes", "udict", "nested", "df", "bytes", "text", "none", "float", "inf", "nan", "tuple", "tlist", "pairs", "set", "matrix", "lod"]), str(r.choice([0, 1, 2, 3]))])
             self._numeric_prefix = False
         elif c == "firstcat":
             a = [self.str_arg(D, P) for _ in range(r.randint(0, 3))]
@@ -170,6 +170,9 @@ class QGen:
             a = [self.float_arg(D, P), self.bool_arg(D, P)][:r.choice([0, 1, 2, 2])]
             if len(a) < 2:
                 self.feat("arg.missing_none_default_typed")
+            self._numeric_prefix = False
+        elif c == "scale":
+            a = opt([self.float_arg(D, P), self.str_arg(D, P)])
             self._numeric_prefix = False
         elif c == "unann":
             a = opt([self.int_arg(D, P)])
